@@ -1,5 +1,6 @@
 MODULES = [
     'harness.c01',
+    'harness.c02',
     'harness.c09',
     'harness.c14',
     'harness.c10',
@@ -8,4 +9,5 @@ MODULES = [
     'harness.c16',
     'harness.c07',
     'harness.c06',
+    'harness.c05',
 ]
